@@ -212,6 +212,11 @@ def jobs(tier, seed):
         cfg = {'kind': kind, 'rate': 8192, 'table': t, 'flows': [0, 1, 1, 0], 'sorts': 'int', 'burst': [0, 1, 1, 0],
                'split_gap': [3], 'smax': 1600 if kind == 'DRR' else 3, 'ties_at_departures': True}
         js.append({'harness': 'rr', 'cfg': cfg, 'weight': 80, 'opts': {'max_paths': 8000}})
+    # DRR with several flows mapped onto one class (credit and emptiness are per class, not per flow)
+    for pat in ([5, 6, 8, 5, 6], [5, 8, 6, 6, 5]):
+        js.append({'harness': 'rr', 'weight': 80, 'opts': {'max_paths': 8000},
+                   'cfg': {'kind': 'DRR', 'rate': 8192, 'table': {7: 1, 8: 1}, 'flows': pat, 'sorts': 'int', 'burst': [0, 1, 1, 1, 1],
+                           'flow2class': {5: 7, 6: 7, 8: 8}, 'smax': 1600}})
     # very long visits: a weight of 10 (WRR) and 13 packets handed in at one instant
     for kind, t in (('WRR', {0: 10, 1: 1}), ('RR', {0: 1, 1: 1}), ('WRR', {0: 1, 1: 12})):
         cfg = {'kind': kind, 'rate': 8, 'table': t, 'flows': [0] * 11 + [1, 1] if t[0] >= t[1] else [1] * 11 + [0, 0], 'sorts': 'int',
